@@ -79,6 +79,9 @@ func runC20(ctx *Ctx) {
 	rep.Rule = "metamorphic triples (page, page with the marked subtrees deleted, page with the markers renamed to neutral values); remaining content 250-800 words; markers = unlikely vocabulary without a second documented meaning on class / id / role, on div/section/aside/ul wrappers placed between blocks and inside wrappers (never inside a, body or tables); distinct by structure; non-trivial = a marked subtree is present and the remaining page's word count is within 250 of the threshold"
 	pc := newPipeCorr()
 	defer pc.run(ctx)
+	if ctx.Replay == "" {
+		candidatesCorr(ctx, ctx.pick(5000, 200000)).run(ctx)
+	}
 	type triple struct{ P, Del, Neu string }
 	run := func(t triple) {
 		rep.Evaluations++
